@@ -153,8 +153,74 @@ fn c15_pure(ctx: &VariantCtx) -> WorldOutcome {
     crate::repairworld::c15_pure(if ctx.tier == Tier::Thorough { 4096 } else { 1024 })
 }
 
+fn c05_cluster(ctx: &VariantCtx) -> WorldOutcome {
+    cluster_variant(ctx, |p, t| {
+        p.byz_permille = 800;
+        p.partition_permille = 600;
+        if t == Tier::Thorough {
+            p.max_n = 9;
+            p.max_ms = 20_000;
+        }
+    })
+}
+fn c10_hostile(ctx: &VariantCtx) -> WorldOutcome {
+    cluster_variant(ctx, |p, t| {
+        p.hostile = true;
+        p.forger = true;
+        p.corrupt_permille = 400;
+        p.byz_permille = 800;
+        p.max_n = 6;
+        p.min_ms = 6_000;
+        p.max_ms = if t == Tier::Thorough { 20_000 } else { 12_000 };
+    })
+}
+fn c10_hostile_then_live(ctx: &VariantCtx) -> WorldOutcome {
+    cluster_variant(ctx, |p, t| {
+        p.hostile = true;
+        p.forger = true;
+        p.liveness = true;
+        p.corrupt_permille = 400;
+        p.byz_permille = 700;
+        p.max_n = 6;
+        p.min_ms = 36_000;
+        p.max_ms = if t == Tier::Thorough { 60_000 } else { 44_000 };
+    })
+}
+fn c09_forge(_ctx: &VariantCtx) -> WorldOutcome {
+    crate::wireworld::c09_forge()
+}
+fn c19_wire(ctx: &VariantCtx) -> WorldOutcome {
+    crate::wireworld::c19_wire(if ctx.tier == Tier::Thorough { 2048 } else { 2048 })
+}
+fn c19_cluster(ctx: &VariantCtx) -> WorldOutcome {
+    cluster_variant(ctx, |p, _| {
+        p.max_ms = 8_000;
+        p.corrupt_permille = 500;
+    })
+}
+fn c09_cluster(ctx: &VariantCtx) -> WorldOutcome {
+    cluster_variant(ctx, |p, _| {
+        p.max_ms = 9_000;
+        p.forger = true;
+        p.corrupt_permille = 300;
+    })
+}
+
 pub fn variants(property: &str, _tier: Tier) -> Vec<Variant> {
     match property {
+        "C05" => vec![Variant { name: "cluster-vote-rules", weight: 1, max_events: 400_000, run: c05_cluster }],
+        "C10" => vec![
+            Variant { name: "cluster-hostile", weight: 3, max_events: 400_000, run: c10_hostile },
+            Variant { name: "cluster-hostile-then-live", weight: 1, max_events: 800_000, run: c10_hostile_then_live },
+        ],
+        "C09" => vec![
+            Variant { name: "forge", weight: 24, max_events: 100_000, run: c09_forge },
+            Variant { name: "cluster-forger", weight: 1, max_events: 400_000, run: c09_cluster },
+        ],
+        "C19" => vec![
+            Variant { name: "wire", weight: 24, max_events: 100_000, run: c19_wire },
+            Variant { name: "cluster-monitor", weight: 1, max_events: 400_000, run: c19_cluster },
+        ],
         "C14" => vec![Variant { name: "repair", weight: 1, max_events: 150_000, run: c14 }],
         "C15" => vec![
             Variant { name: "repair", weight: 1, max_events: 150_000, run: c14 },
@@ -223,8 +289,24 @@ pub fn plan(property: &str, tier: Tier) -> Option<Plan> {
             "one case = one real Repair::repair_loop repairing one 1..K-slice block (honest or Byzantine leader, optionally with dissemination data already present) from 2-7 peers that are real RepairRequestHandlers with or without the block, silent nodes, or liars (wrong variant, aliased/wrong indices, wrong root, mutated proofs, other block's material, alternative last-flag signing, duplicates, unsolicited answers, delays) over a network with loss/duplication/stragglers until a drawn stabilisation time; checked: announced/stored block hashes to the requested id, no panic, dissemination data untouched, repair completes within 20*REPAIR_TIMEOUT after stabilisation while an honest peer holds the block, and an honest responder answers every request shape with verifying data or a NACK; non-trivial = a liar or an honest holder took part; distinct = (roles, slices, liar fault kinds fired, outcome)"),
         "C15" => (if q { 20_000 } else { 600_000 }, if q { 90 } else { 1500 }, "exploration",
             "two variants: (1) the repair world of C14 with liars presenting aliased indices (index + k*2^height), non-last slices as last, mutated proofs; the requester must never request a slice beyond the block's true last slice; (2) trees of 1..1024 (thorough 4096) leaves incl. powers of two +-1: every created proof verifies, check_proof_last holds exactly for the last leaf, and every mutation (leaf, swapped leaf, index inside/beyond width/huge, root bit, proof element bit, proof length 0..33) must fail both verifiers without panicking; distinct = (leaf count, index, mutation classes)"),
+        "C05" => (if q { 480 } else { 20_000 }, if q { 110 } else { 1800 }, "exploration",
+            "one case = one seeded cluster execution (as C01: faults, partitions, <20% Byzantine equivocating voters and leaders, several blocks per slot); every vote each correct node broadcasts is replayed in broadcast order against the voting rules: never a slashable combination with its own earlier votes, finalize only after notarizing and only for a block that has a notarization certificate, fallback votes only after an initial vote and only once the stake they require had been voted anywhere, notar only for a block whose parent is the block it notarized in the preceding slot or (window-first slot) a certified, skip-connected parent; non-trivial as C01; distinct = per-node history fingerprint"),
+        "C10" => (if q { 320 } else { 12_000 }, if q { 130 } else { 1800 }, "exploration",
+            "one case = one seeded cluster execution with hostile generators on all five interfaces interleaved with normal traffic (garbage and mutated consensus messages with absurd slots, forged votes/certificates, mutated shreds incl. odd sizes and flipped flags, repair requests with unknown senders/blocks/indices, unsolicited repair responses of every variant with proofs of length 0..33, oversize/empty/maximal transactions) plus a Byzantine leader signing malformed blocks (parent not earlier, first slice without parent, undecodable transactions, contradictory last flags, parent switched twice / to itself, slices after the last); checked: no panic located in the repository's sources in any task of a correct node, and (variant cluster-hostile-then-live) after the hostile phase every live correct node keeps finalizing within the C02 bound; non-trivial as C01; distinct = per-node history fingerprint"),
+        "C09" => (if q { 4_000 } else { 200_000 }, if q { 120 } else { 1500 }, "exploration",
+            "two variants: (1) forge: valid votes and certificates (3-10 validators, drawn stakes, signer subsets just below/at/above 60%/80%, mixed certificates incl. a signer in both halves) are altered on the wire by chains of 1-3 structured mutations (kind, slot, hash, signer, signer set, bitmask length/word count, out-of-range signer bit, signature bytes, foreign signature, halves swapped/moved, inflated declared stake) and offered to ValidatedVote/ValidatedCert::try_new; the verdict must equal an independent one (signature bytes equal the honest signature/aggregation of exactly the named signers over exactly this kind/slot/hash, bitmask length = validator count, distinct stake >= threshold) and never panic; (2) cluster-forger: the same forgeries plus byte corruption are injected at real nodes while normal traffic flows and every certificate a correct node (re-)broadcasts must validate; non-trivial = at least one mutation applied; distinct = set of mutation classes x outcome counts"),
+        "C19" => (if q { 6_000 } else { 300_000 }, if q { 120 } else { 1500 }, "exploration",
+            "two variants: (1) wire: every message kind (five vote kinds; five certificate types for 1..2048 validators with the highest index set and both halves populated; shreds of all four shredders at boundary payload sizes; repair requests/responses with proofs for 1..1024 slices; transactions 0..512 bytes) is encoded, checked <= 1500 bytes, decoded and re-encoded identically, rejected with a trailing byte, rejected with out-of-range slice/shred indices, and corrupted/truncated/extended at byte level (decoder must reject or yield a stable re-encoding, never panic); plus arbitrary byte strings offered to all five decoders; (2) cluster-monitor: the same size and round-trip monitor on every message real nodes emit during cluster runs with receiver-side byte corruption; distinct = (kind, encoded sizes)"),
         _ => return None,
     };
+    if matches!(property, "C09" | "C19") {
+        return Some(Plan {
+            runs, budget_s, level, rule,
+            real: vec!["wincode codecs of Vote/Cert/ConsensusMessage/Shred/RepairRequest/RepairResponse/Transaction, network::deserialize", "ValidatedVote::try_new, ValidatedCert::try_new, certificate constructors, AggregateSignature", "all four shredders", "cluster variant: full nodes as in C01"],
+            stubbed: vec!["the transport carrying the (mutated) bytes", "in the cluster variant: as C01"],
+            assumptions,
+        });
+    }
     if matches!(property, "C14" | "C15") {
         return Some(Plan {
             runs, budget_s, level, rule,
@@ -248,6 +330,10 @@ pub fn plan(property: &str, tier: Tier) -> Option<Plan> {
             stubbed: vec!["the other validators: a universe of validly signed votes / certificates / block registrations delivered under the simulated schedule", "Votor and Blockstore are not in this world (their inputs are synthesised)", "signature verification results are memoised per process (same keys, same messages)"],
             assumptions,
         });
+    }
+    if property == "C10" {
+        assumptions.push("panics are attributed by source location: only panics inside /repo/src count; a panic elsewhere is a harness error (exit 2)");
+        assumptions.push("post-hostile liveness uses the C02 progress bound and preconditions");
     }
     if property == "C02" {
         assumptions.push("liveness is only demanded for windows measured to start after stabilisation (DESIGN §7 C02) and within bound B = 2*DELTA_STANDSTILL + 4*(DELTA_TIMEOUT+4*DELTA_BLOCK)");
